@@ -311,6 +311,64 @@ func c10Doc(p *Prog, rp *Report) {
 			r.undecided(doc, pos, undec)
 			continue
 		}
+		if !vr.single && undec == "" {
+			// Packages, Sources, debian/control: several paragraphs decoded into a list. Each element must be
+			// what its paragraph decodes to on its own (a short paragraph inherits nothing from its neighbours).
+			var short strings.Builder
+			var collect func(s *types.Struct)
+			collect = func(s *types.Struct) {
+				for _, ti := range fieldTags(s) {
+					if ti.Embedded {
+						if es, ok := ti.Type.Underlying().(*types.Struct); ok {
+							collect(es)
+						}
+						continue
+					}
+					if mf, known := model[ti.Wire]; known && ti.Required {
+						short.WriteString(ti.Wire + ":" + mf.text + "\n")
+					}
+				}
+			}
+			collect(structOf(n))
+			if short.Len() == 0 {
+				short.WriteString(names[0] + ":" + model[names[0]].text + "\n")
+			}
+			full := text.String()
+			lr := newC09Run(p)
+			lobj, lerr, lwhy := lr.unmarshal(types.NewSlice(n), short.String()+"\n"+full+"\n"+short.String())
+			sr := newC09Run(p)
+			sobj, serr, swhy := sr.unmarshal(n, short.String())
+			switch {
+			case strings.HasPrefix(lwhy, "PANIC"):
+				problems = append(problems, "decoding three paragraphs into a list panics: "+lwhy)
+			case lwhy != "" || swhy != "":
+				undec = "list of paragraphs: " + lwhy + swhy
+			case lerr || serr:
+				problems = append(problems, "a list of three paragraphs (short, full, short) is rejected although each paragraph decodes on its own")
+			default:
+				lv, _ := lr.st.load(Ptr{Obj: lobj})
+				elems, many, ok := lr.m.sliceElems(lr.st, lv)
+				if !ok || many {
+					undec = "list of paragraphs: the decoded list is not a concrete slice"
+					break
+				}
+				wantShort := deepRender(sr.st, sr.st.Heap[sobj].V, 0)
+				wantFull := deepRender(run.st, run.st.Heap[obj].V, 0)
+				if len(elems) != 3 {
+					problems = append(problems, fmt.Sprintf("three paragraphs decode to a list of %d", len(elems)))
+					break
+				}
+				for i, want := range []string{wantShort, wantFull, wantShort} {
+					if got := deepRender(lr.st, elems[i], 0); got != want {
+						problems = append(problems, fmt.Sprintf("paragraph %d of a list (short, full, short) decodes to %s, on its own it decodes to %s", i+1, clip(got, 200), clip(want, 200)))
+					}
+				}
+			}
+			if undec != "" {
+				r.undecided(doc, pos, undec)
+				continue
+			}
+		}
 		fillProblems(r, doc, pos, problems, fmt.Sprintf("%d fields of the document (of %d in the Debian table; lists folded, two entries per checksum list) decode to the model; fields without a Go counterpart are ignored", nfields, len(names)))
 	}
 }
